@@ -35,7 +35,7 @@ ASSUMPTIONS = [
     "device-kind messages sent by a client may be relayed to other clients (the router routes by kind by design)",
     "liveness probes after the hostile message: a valid getProperties on the same connection is answered, a valid write is applied, a driver-side update reaches the sender and the observer",
 ]
-QUICK_RUNS = 2000
+QUICK_RUNS = 6000
 QUICK_BUDGET_S = 150
 THOROUGH_BUDGET_S = 360
 CHUNK = 25
@@ -144,12 +144,15 @@ def hostile(rng, entry, dev, v):
     if entry == "huge_number":
         if kind != "Number":
             return {"xml": wrap(cx), "valid": [cv], "parser_ok": True, "entry": "valid_control"}
-        txt = rng.choice(["1" + "0" * 400, "-" + "9" * 350, "1" + "0" * 5000, "0." + "0" * 400 + "1"])
+        txt = rng.choice(["1" + "0" * 400, "-" + "9" * 350, "1" + "0" * 5000, "0." + "0" * 400 + "1",
+                          "1" + "0" * 400 + ".5", "-" + "9" * 320 + ".9", "9" * 309 + ".0", "1" + "0" * 400 + ".5", "-" + "9" * 320 + ".9"])  # (the dotted ones parse to +-infinity)
         # for an integer format the value is representable, so taking it is as acceptable as refusing it
         try:
             hv = [(e["name"], int(txt))] if "." not in txt and not V.is_sexa(e["format"]) else [(e["name"], float(txt))]
         except ValueError:
             hv = []
+        if hv and isinstance(hv[0][1], float) and hv[0][1] in (float("inf"), float("-inf")):
+            hv = []  # no format renders an infinity: it cannot be applied
         return {"xml": wrap(f'<oneNumber name="{e["name"]}">{txt}</oneNumber>'), "valid": hv, "parser_ok": True}
     if entry.startswith("blob_"):
         if kind != "BLOB":
@@ -267,6 +270,7 @@ def generate(seed, tier, index):
         steps.insert(rng.randint(1, len(steps)), {"op": "hostile", **h2})
     net = {"latency": rng.choice(["zero", "lan", "slow"]), "frag": rng.choice(["whole", "fixed:7", "random", "coalesce"]), "hwm": rng.choice([64, 65536])}
     return {"devices": specs, "steps": steps, "net": net, "transport": transport, "target": tv["name"], "live": lv["name"],
+            "write_handler": rng.random() < 0.5 or entry == "huge_number",
             "kind": kind, "seed": rng.randrange(1 << 30), "pos_class": "early" if pos <= 2 else ("late" if pos >= len(session) - 1 else "mid")}
 
 
@@ -323,7 +327,31 @@ def execute(scen):
     delivered = 0
     entries = []
     with Sim(scen["seed"], cfg, PoolConfig(workers=3)) as sim:
-        stack = Stack(sim, scen["devices"], with_tty=(transport == "tty"))
+        handler_calls = [0]
+
+        def extra_attrs(spec):
+            # the target device's driver carries the kind of Write handler real drivers have: it converts the requested
+            # number to device units.  A value the library goes on to refuse must never get as far as user code.
+            if spec["name"] != scen["devices"][0]["name"] or scen["kind"] != "Number" or not scen.get("write_handler"):
+                return None
+
+            def extra(dct):
+                from indi.device.events import Write, on
+                gattr = next(iter(spec["levels"][-1]["groups"]))
+                if gattr not in dct or "target" not in dct[gattr].vectors:
+                    return {}
+                srcs = list(dct[gattr].vectors["target"].elements.values())
+
+                def to_device_units(self, event):
+                    handler_calls[0] += 1
+                    int(round(event.new_value * 100))
+
+                return {"to_device_units": on(srcs if len(srcs) > 1 else srcs[0], Write)(to_device_units)}
+            return extra
+
+        stack = Stack(sim, scen["devices"], extra_attrs=extra_attrs, with_tty=(transport == "tty"))
+        if scen.get("write_handler") and scen["kind"] == "Number":
+            probes["target_has_write_handler"] = 1
         stack.add_client(start=False)
         observer = stack.clients[0]
         sender = Sender(stack, transport)
